@@ -110,18 +110,6 @@ theorem C08_unique_current (ops : List Op) :
     (∀ h o, s.objs h = some o → o.alive = true → 0 < o.id) :=
   ⟨(C08_unique Gen.C08.cfg C08_gen_cfg ops).1, fun h o ho ha => ((C08_unique Gen.C08.cfg C08_gen_cfg ops).2.1 h o ho ha).1⟩
 
-theorem mem_aliveObjs (s : St) (p : Nat × Obj) (hp : p ∈ aliveObjs s) :
-    s.objs p.1 = some p.2 ∧ p.2.alive = true := by
-  unfold aliveObjs at hp
-  rcases List.mem_filterMap.mp hp with ⟨h, _, hh⟩
-  cases ho : s.objs h with
-  | none => simp [ho] at hh
-  | some o =>
-    simp only [ho] at hh
-    split at hh
-    · cases hh; exact ⟨ho, by assumption⟩
-    · cases hh
-
 /-- the decidable scans used by the witnesses below find nothing in any reachable state. -/
 theorem C08_unique_scan (c : Cfg) (hc : c.Sound) (ops : List Op) :
     hasDupLive (run c ops) = false ∧ hasDupNode (run c ops) = false ∧ hasNonPos (run c ops) = false := by
